@@ -17,6 +17,17 @@ The absorption of a tiny increment by a huge float is outside this model.
 User code is data: the looped function consumes a script of `Beh`aviours, one per invocation
 (`ret` once the script is exhausted).  Its Deferred (behaviours `defer`, `stopDefer`) is fired
 later by the history ops `fire` / `fail`.
+
+Re-entrancy (second half of the file).  The application's callback on the Deferred returned by `start()`
+is data too: `St.reactions` holds one list of `ROp`s (`start` / `stop` / `reset` on the same LoopingCall)
+per firing of such a Deferred, consumed in order, executed synchronously INSIDE `d.callback(self)` /
+`d.errback(failure)` — i.e. at the three places task.py fires it (`stop()`, `cb`, `eb`), each time after
+`d, self._deferred = self._deferred, None`.  The functions `stopK … stepK` are the same transcriptions as
+`stop … step` with the firing left open as a continuation `k`; `fireStart` is the continuation that emits
+the `fired` event and runs the next reaction through `stepK` again (nested firings included).  `k0` (emit the
+event, do nothing else) gives back the first half.  When the Deferred fires inside `start(now=True)` the
+caller can only attach its callback after `start()` returned; nothing happens in `start()` after
+`self()` returns, so the model runs the reaction at the firing point in that case as well.
 -/
 namespace Twisted.Reactor.Looping
 
@@ -48,6 +59,13 @@ inductive Op where
   | reset
   deriving Repr, DecidableEq
 
+/-- what a callback of the Deferred returned by `start()` may do to the LoopingCall, synchronously -/
+inductive ROp where
+  | start (interval : Int) (now : Bool)
+  | stop
+  | reset
+  deriving Repr, DecidableEq
+
 structure St where
   now : Int := 0                         -- `Clock.rightNow`
   withCount : Bool := false              -- built with `LoopingCall.withCount`
@@ -60,6 +78,9 @@ structure St where
   runAtStart : Bool := false             -- `self._runAtStart`
   realLastTime : Option Int := none      -- `self._realLastTime`
   inflight : Bool := false               -- the Deferred returned by the current invocation is unfired
+  reactions : List (List ROp) := []      -- user code: what the callback of start()'s Deferred does, one entry per firing
+  outside : Bool := false                -- a reaction tried `start` with interval 0 or while the function's Deferred
+                                         -- is unfired (outside the histories considered; the op is skipped)
   deriving Repr, DecidableEq
 
 /-- result of `maybeDeferred(self.f)` -/
@@ -208,5 +229,144 @@ def run : St → List Op → St × List (List Ev)
     (s'', e :: es)
 
 def init (withCount : Bool) (script : List Beh) : St := { withCount := withCount, script := script }
+
+/-! ## re-entrancy: the firing of start()'s Deferred as a continuation -/
+
+/-- what firing start()'s Deferred does: `k s ok` is entered with `self._deferred` already swapped out -/
+abbrev Cont := St → Bool → St × List Ev
+
+/-- nobody listens: only the event -/
+def k0 : Cont := fun s ok => (s, [.fired ok])
+
+/-- `stop()` -/
+def stopK (k : Cont) (s : St) : St × List Ev :=
+  if !s.running then (s, [.assertion]) else
+  let s := { s with running := false }
+  match s.call with
+  | some _ => k { s with call := none, deferred := false } true    -- `d, self._deferred = self._deferred, None; d.callback(self)`
+  | none => (s, [])
+
+/-- the user function -/
+def userCallK (k : Cont) (s : St) : St × Res :=
+  let (b, s) := match s.script with
+    | [] => (Beh.ret, s)
+    | b :: r => (b, { s with script := r })
+  match b with
+  | .ret => (s, .value)
+  | .raise => (s, .failure)
+  | .defer => ({ s with inflight := true }, .pending)
+  | .stop => ((stopK k s).1, .value)
+  | .stopDefer => ({ (stopK k s).1 with inflight := true }, .pending)
+
+/-- `cb(result)` -/
+def cbK (k : Cont) (s : St) : St × List Ev :=
+  if s.running then (scheduleFrom s s.now, [])
+  else if s.deferred then k { s with deferred := false } true
+  else (s, [.assertion])
+
+/-- `eb(failure)` -/
+def ebK (k : Cont) (s : St) : St × List Ev :=
+  let s := { s with running := false }
+  if s.deferred then k { s with deferred := false } false
+  else (s, [.assertion])
+
+def finishK (k : Cont) (s : St) (evs : List Ev) : Res → St × List Ev
+  | .value => ((cbK k s).1, evs ++ (cbK k s).2)
+  | .failure => ((ebK k s).1, evs ++ (ebK k s).2)
+  | .pending => (s, evs)
+
+/-- `__call__()` -/
+def callOpK (k : Cont) (s : St) : St × List Ev :=
+  let s0 := { s with call := none }
+  if s0.withCount then
+    match counter s0 with
+    | (s1, some c) => finishK k (userCallK k s1).1 [Ev.call s1.now (some c)] (userCallK k s1).2
+    | (s1, none) => finishK k s1 [Ev.skip s1.now] Res.value
+  else
+    finishK k (userCallK k s0).1 [Ev.call s0.now none] (userCallK k s0).2
+
+/-- `start(interval, now)` -/
+def startK (k : Cont) (s : St) (interval : Int) (now : Bool) : St × List Ev :=
+  if s.running then (s, [.assertion]) else
+  if interval < 0 then (s, [.valueError]) else
+  let s := { s with running := true, deferred := true, starttime := s.now,
+                    interval := interval, runAtStart := now, realLastTime := none }
+  if now then callOpK k s else (scheduleFrom s s.starttime, [])
+
+/-- the loop of `Clock.advance` (re-examines `self.calls` after every call it made, whatever that call did) -/
+def runDueK (k : Cont) : Nat → St → St × List Ev
+  | 0, s => (s, [])
+  | n + 1, s =>
+    match s.call with
+    | some t =>
+      if t ≤ s.now then
+        let (s', e) := callOpK k s
+        let (s'', e') := runDueK k n s'
+        (s'', e ++ e')
+      else (s, [])
+    | none => (s, [])
+
+def advanceK (k : Cont) (s : St) (amount : Int) : St × List Ev :=
+  runDueK k advanceFuel { s with now := s.now + amount }
+
+def fireK (k : Cont) (s : St) : St × List Ev :=
+  if s.inflight then cbK k { s with inflight := false } else (s, [])
+
+def failK (k : Cont) (s : St) : St × List Ev :=
+  if s.inflight then ebK k { s with inflight := false } else (s, [])
+
+def stepK (k : Cont) (s : St) : Op → St × List Ev
+  | .start i n => startK k s i n
+  | .advance a => advanceK k s a
+  | .fire => fireK k s
+  | .fail => failK k s
+  | .stop => stopK k s
+  | .reset => reset s
+
+def ROp.toOp : ROp → Op
+  | .start i n => .start i n
+  | .stop => .stop
+  | .reset => .reset
+
+/-- a reaction operation is inside the histories considered -/
+def ROp.ok (s : St) : ROp → Bool
+  | .start i _ => i != 0 && !s.inflight
+  | _ => true
+
+/-- the body of the application's callback: its operations in order (each wrapped in its own try/except by the
+    harness: an AssertionError / ValueError is an event, not an abort) -/
+def runReaction (f : St → Op → St × List Ev) : St → List ROp → St × List Ev
+  | s, [] => (s, [])
+  | s, r :: rs =>
+    if r.ok s then
+      let (s', e) := f s r.toOp
+      let (s'', e') := runReaction f s' rs
+      (s'', e ++ e')
+    else runReaction f { s with outside := true } rs
+
+/-- start()'s Deferred fires: the event, then the next reaction, run synchronously with the same LoopingCall code
+    (so a firing inside the reaction takes the reaction after it).  Fuel: one unit per nested firing;
+    `reactions.length` units are always enough. -/
+def fireStart : Nat → Cont
+  | 0, s, ok => (s, [.fired ok])
+  | n + 1, s, ok =>
+    match s.reactions with
+    | [] => (s, [.fired ok])
+    | r :: rs =>
+      let (s', e) := runReaction (stepK (fireStart n)) { s with reactions := rs } r
+      (s', .fired ok :: e)
+
+/-- one top-level operation with the application's callbacks attached -/
+def stepR (s : St) (op : Op) : St × List Ev := stepK (fireStart s.reactions.length) s op
+
+def runR : St → List Op → St × List (List Ev)
+  | s, [] => (s, [])
+  | s, op :: ops =>
+    let (s', e) := stepR s op
+    let (s'', es) := runR s' ops
+    (s'', e :: es)
+
+def initR (withCount : Bool) (script : List Beh) (reactions : List (List ROp)) : St :=
+  { withCount := withCount, script := script, reactions := reactions }
 
 end Twisted.Reactor.Looping
